@@ -44,6 +44,18 @@ R2  no builder-persistent state is carried between flights (effects):
     the name, otherwise to the builder, never to both.  An ordinary
     `self.<name>` look-up inside `__getattr__` that re-enters it is reported
     as the RecursionError it is.
+    Loop state kept in a helper object: an object of a repository class that
+    a builder constructor creates and keeps (`self.A = K(..)`) outlives the
+    flight.  Where `_iterate_mass` works through such an object (see R3), every
+    field that is written while flying must be assigned on every path from
+    the start of the iteration to each of its reads (must-assigned dataflow
+    over the opened function, reads inside methods that stay calls included):
+    a field initialised once per builder instead of once per flight (a
+    convergence flag, a pass counter) carries the outcome of an earlier flight
+    into this one - reported naming the field, the read, what *is* assigned by
+    then and where the field is written.  Fields only the constructor sets
+    are configuration, not history.  Not decided (exit 2) when another builder
+    method also uses the object.
 R3  convergence gate, decided on the CFG of `_iterate_mass` by must-dataflow:
     every `return <trajectory>` is reached only with `abs(residual) <
     tolerance` established for the iteration that produced that trajectory
@@ -71,6 +83,20 @@ R3  convergence gate, decided on the CFG of `_iterate_mass` by must-dataflow:
     residual is not established), and no one-sided-test violation is claimed
     while an unclassified ordering comparison of an iteration quantity may
     supply the missing bound.
+    The state of the loop may live in a helper object instead of locals
+    (`it = self.mass_iteration; it.start(self.options); while
+    it.proceed(res): ..; if not it.converged: raise it.failure()`): for an
+    object of a repository class kept by the builder / context constructor,
+    reached as `self.A` or through one alias, each method call that is a
+    statement, the value of an assignment / return or the first thing an
+    `if` / `while` test evaluates is replaced by the method's body (the
+    engine's helper inliner; `while obj.m(..):` is `while True: t = obj.m(..);
+    if not t: break`; a test of a flag every preceding branch has just set to
+    a constant is threaded into those branches), and `obj.x` is the local
+    `obj__x`: flag, counter, tolerance and latest residual are locals of the
+    loop again and the gate is decided as above.  Methods that write no field
+    stay calls.  An object that is handed on, rebound, or whose method cannot
+    be inlined leaves the function as written (then usually exit 2).
     The residual returned by `_fly_iteration` is the leftover trip fuel
     fraction of *the trajectory it flew*: as an exact rational function it
     equals (F − (M − last aircraft mass)) / F, where M and F are what the
@@ -110,6 +136,20 @@ R5  a context constructor reads base-initialised fields only after
     `super().__init__()`.
 R6  an out-of-envelope state is rejected by the performance model itself (the
     no-extrapolation rule of C06).
+R7  a rejecting loop makes every check it is written to make: in the methods
+    of the context and builder classes (and what they call), a `for .. in
+    zip(..)` whose body can raise pairs the quantities to compare with their
+    limits / messages; zip() stops silently at its shortest operand.  When the
+    program text fixes the length of every operand (a display, a local bound
+    once to one, tuple()/list() of one, a class constant read through self /
+    cls / the class that no method stores to and no subclass overrides, a
+    module constant) the lengths must be equal; otherwise the checks for the
+    dropped elements are never made and a mission only they would reject is
+    not rejected with its reason.  The report names the operands and lengths,
+    the comparisons never made, and - when the short operand holds a string
+    written as adjacent literals over several lines - the missing comma that
+    joined two messages into one.  Operands of unknown length are not judged.
+    Positive control: an embedded loop over zip(2, 2, <class constant of 1>).
 """
 
 from __future__ import annotations
@@ -117,7 +157,7 @@ from __future__ import annotations
 import ast
 
 from ..astutil import (MUTATING_METHODS, ancestors, assigned_names, call_name, calls_in, conjuncts, guards_of,
-                       is_generator_manager, is_within, local_defs, norm, single_def_value,
+                       is_generator_manager, is_within, local_defs, norm, set_parents, single_def_value,
                        splice_class_managers, splice_generator_managers, stmt_of, stores_to, walk_no_nested)
 from ..cfg import CFG
 from ..resolve import closure, resolve_call
@@ -1220,6 +1260,436 @@ def _close(props, ok):
     return frozenset(s)
 
 
+# ----------------------------------------------------------------------------------------------------
+# R3 / R2: the state of the iteration kept in a helper object (`it = self.mass_iteration; it.start(..);
+# while it.proceed(res): ..; if not it.converged: raise ..`)
+# ----------------------------------------------------------------------------------------------------
+
+def _held_objects(prog):
+    """attribute -> (class K, 'builder' | 'context', constructor, store statement): the objects of repository classes
+    that the builder / context constructors create and keep (`self.A = K(..)`)"""
+    out, plain = {}, set()
+    for kind, root in (('builder', 'Builder'), ('context', 'Context')):
+        for c in prog.subclasses_of(root):
+            for nm in ('__init__', '__post_init__'):
+                ini = c.methods.get(nm)
+                if ini is None:
+                    continue
+                for t, st, how in stores_to(ini.node):
+                    if not (isinstance(t, ast.Attribute) and norm(t.value) == 'self'):
+                        continue
+                    k = None
+                    if isinstance(st, (ast.Assign, ast.AnnAssign)) and isinstance(st.value, ast.Call) \
+                            and (t is getattr(st, 'target', None) or t in getattr(st, 'targets', [])):
+                        try:
+                            k = prog.resolve_class_expr(c.module, st.value.func)
+                        except Exception:
+                            k = None
+                    if k is None or (t.attr in out and out[t.attr][0] is not k):
+                        plain.add(t.attr)
+                    else:
+                        out[t.attr] = (k, kind, ini, st)
+    return {a: v for a, v in out.items() if a not in plain}
+
+
+def _class_fields(k) -> set:
+    out = set()
+    for c in k.mro():
+        out |= set(c.annotated_fields())
+        for meth in c.methods.values():
+            for t, st, how in stores_to(meth.node):
+                if isinstance(t, ast.Attribute) and norm(t.value) == (meth.params[0] if meth.params else 'self'):
+                    out.add(t.attr)
+    return out
+
+
+def _method_effects(k, name, seen=()):
+    """(fields read, fields written) by method `name` of class k, through the methods it calls on itself; None when
+    the method does something else with its object (hands it on, stores it)"""
+    meth = k.find_method(name)
+    if meth is None or name in seen or not meth.params:
+        return None
+    me = meth.params[0]
+    reads, writes = set(), set()
+    for x in walk_no_nested(meth.node):
+        if isinstance(x, ast.Name) and x.id == me:
+            p = getattr(x, '_parent', None)
+            if not (isinstance(p, ast.Attribute) and p.value is x):
+                return None
+            pp = getattr(p, '_parent', None)
+            if isinstance(pp, ast.Call) and pp.func is p:
+                sub = _method_effects(k, p.attr, seen + (name,))
+                if sub is None:
+                    return None
+                reads |= sub[0]
+                writes |= sub[1]
+            elif isinstance(p.ctx, ast.Load):
+                reads.add(p.attr)
+            else:
+                writes.add(p.attr)
+                if isinstance(pp, ast.AugAssign):
+                    reads.add(p.attr)
+    return reads, writes
+
+
+class _Receiver(ast.NodeTransformer):
+    """`self.A` -> the local name the object is known by"""
+
+    def __init__(self, me, attr, name):
+        self.me, self.attr, self.name = me, attr, name
+
+    def visit_Attribute(self, n):
+        self.generic_visit(n)
+        if n.attr == self.attr and isinstance(n.value, ast.Name) and n.value.id == self.me:
+            return ast.copy_location(ast.Name(id=self.name, ctx=n.ctx), n)
+        return n
+
+
+class _FieldLocals(ast.NodeTransformer):
+    """`obj.field` -> the local `obj__field`"""
+
+    def __init__(self, fields_of):
+        self.fields_of = fields_of
+
+    def visit_Attribute(self, n):
+        self.generic_visit(n)
+        if isinstance(n.value, ast.Name) and n.attr in self.fields_of.get(n.value.id, ()):
+            new = ast.copy_location(ast.Name(id=f'{n.value.id}__{n.attr}', ctx=n.ctx), n)
+            if hasattr(n, '_src'):
+                new._src = n._src
+            return new
+        return n
+
+
+def _first_evaluated(test, c) -> bool:
+    """c is the first thing the test evaluates, unconditionally"""
+    e = test
+    while e is not c:
+        if isinstance(e, ast.UnaryOp):
+            e = e.operand
+        elif isinstance(e, ast.BoolOp):
+            e = e.values[0]
+        elif isinstance(e, ast.Compare):
+            e = e.left
+        else:
+            return False
+    return True
+
+
+def _replace_node(root, old, new):
+    for p in ast.walk(root):
+        for f, v in ast.iter_fields(p):
+            if v is old:
+                setattr(p, f, new)
+                return True
+            if isinstance(v, list):
+                for i, y in enumerate(v):
+                    if y is old:
+                        v[i] = new
+                        return True
+    return False
+
+
+def _fallthrough_leaves(block, out) -> bool:
+    """collect the statement lists at whose end control leaves `block` by falling through; False when one of them is
+    an implicit (absent) else branch"""
+    if not block:
+        return False
+    last = block[-1]
+    if isinstance(last, (ast.Return, ast.Raise, ast.Break, ast.Continue)):
+        return True
+    if isinstance(last, ast.If):
+        return _fallthrough_leaves(last.body, out) and _fallthrough_leaves(last.orelse, out)
+    if isinstance(last, (ast.For, ast.While, ast.Try, ast.With, ast.Match)):
+        return False
+    out.append(block)
+    return True
+
+
+def _thread_constant_tests(fn, clone):
+    """`if c1: ..; t = False  else: ..; t = True` followed by `if [not] t: S` - the test of a flag that every branch
+    before it has just set to a constant - is S (or its else branch) at the end of the branches that chose it: the
+    same executions, with the correlation between the flag and the branch that set it spelled out as control flow"""
+    from ..temps import blocks
+    for _ in range(40):
+        changed = False
+        for owner, field, body in blocks(fn):
+            for i in range(len(body) - 1):
+                a, b = body[i], body[i + 1]
+                if not (isinstance(a, ast.If) and isinstance(b, ast.If)):
+                    continue
+                t, neg = b.test, False
+                if isinstance(t, ast.UnaryOp) and isinstance(t.op, ast.Not):
+                    t, neg = t.operand, True
+                if not isinstance(t, ast.Name):
+                    continue
+                leaves = []
+                if not _fallthrough_leaves([a], leaves) or not leaves:
+                    continue
+                if not all(isinstance(blk[-1], ast.Assign) and len(blk[-1].targets) == 1
+                           and isinstance(blk[-1].targets[0], ast.Name) and blk[-1].targets[0].id == t.id
+                           and isinstance(blk[-1].value, ast.Constant) and isinstance(blk[-1].value.value, bool)
+                           for blk in leaves):
+                    continue
+                for blk in leaves:
+                    val = bool(blk[-1].value.value) ^ neg
+                    blk.extend(clone(s_) for s_ in (b.body if val else b.orelse))
+                del body[i + 1]
+                changed = True
+                break
+            if changed:
+                break
+        if not changed:
+            break
+
+
+def open_state_objects(prog, fi):
+    """The function `fi` with the helper objects that hold its loop state opened: for an object of a repository class
+    K that a builder / context constructor creates and keeps (`self.A = K(..)`), reached in `fi` as `self.A` or through
+    one local alias, every method call `obj.m(..)` that is a statement, the value of an assignment / return, or the
+    first thing an `if` / `while` test evaluates is replaced by the method's body (the engine's helper inliner: early
+    returns become if / else; `while obj.m(..):` is `while True: t = obj.m(..); if not t: break`), and every field
+    `obj.x` becomes the local `obj__x`: the flag, counter and residual the object carries are locals of the loop again
+    and the dataflow rules read them as such.  Calls of methods that write no field stay where they are.  Returns None
+    when the function uses no such object, or when an object is used in a way this does not account for (handed on,
+    rebound, a method that cannot be inlined) - the caller then judges the function as written.
+    Result: dict(fn, objs=[dict(name, attr, cls, kind, ctor, store, fields)], pure={id(call): (obj, method)})."""
+    from ..prenorm import _eligible_helper, _inline_call
+    from ..temps import blocks
+    from .c13 import _clone
+    fn0 = fi.node
+    if not fn0.args.args:
+        return None
+    me = fn0.args.args[0].arg
+    held = _held_objects(prog)
+    attrs = sorted({x.attr for x in walk_no_nested(fn0) if isinstance(x, ast.Attribute) and isinstance(x.value, ast.Name)
+                    and x.value.id == me and x.attr in held})
+    if not attrs:
+        return None
+    fn = set_parents(_clone(fn0))
+    objs = {}
+    for a in attrs:
+        k, kind, ctor, store = held[a]
+        if any(d for c in k.mro() for mt in c.methods.values() for d in mt.decorators() if d != 'staticmethod') \
+                or any(c.find_method(x) for c in [k] for x in ('__getattr__', '__setattr__', '__getattribute__')):
+            return None
+        occ = [x for x in walk_no_nested(fn) if isinstance(x, ast.Attribute) and x.attr == a
+               and isinstance(x.value, ast.Name) and x.value.id == me]
+        if any(not isinstance(x.ctx, ast.Load) for x in occ):
+            return None
+        alias = [x for x in occ if isinstance(x._parent, ast.Assign) and x._parent.value is x
+                 and len(x._parent.targets) == 1 and isinstance(x._parent.targets[0], ast.Name)]
+        if alias:
+            st = alias[0]._parent
+            name = st.targets[0].id
+            if len(occ) != 1 or len(local_defs(fn, name)) != 1 or not any(st is s for s in fn.body):
+                return None
+            fn.body.remove(st)
+        else:
+            name = a
+            if any(isinstance(x, ast.Name) and x.id == name for x in ast.walk(fn)) or name in _params(fn):
+                return None
+            _Receiver(me, a, name).visit(fn)
+        objs[name] = dict(name=name, attr=a, cls=k, kind=kind, ctor=ctor, store=store, fields=_class_fields(k))
+    set_parents(fn)
+
+    def obj_call(x):
+        if isinstance(x, ast.Call) and isinstance(x.func, ast.Attribute) and isinstance(x.func.value, ast.Name) \
+                and x.func.value.id in objs:
+            o = objs[x.func.value.id]
+            return o, o['cls'].find_method(x.func.attr)
+        return None
+
+    def impure(o, meth):
+        eff = _method_effects(o['cls'], meth.name)
+        return eff is None or bool(eff[1])
+
+    counter = [0]
+    for _ in range(60):
+        set_parents(fn)
+        changed = False
+        for owner, field, body in blocks(fn):
+            for i, st in enumerate(body):
+                head = st.test if isinstance(st, (ast.If, ast.While)) else st.iter if isinstance(st, ast.For) else \
+                    st if isinstance(st, (ast.Assign, ast.AugAssign, ast.AnnAssign, ast.Return, ast.Expr, ast.Raise,
+                                          ast.Assert, ast.Delete)) else None
+                if head is None:
+                    if isinstance(st, (ast.With, ast.Match)) and any(obj_call(x) for it_ in getattr(st, 'items', [])
+                                                                     for x in ast.walk(it_)):
+                        return None
+                    continue
+                calls = [(x, *obj_call(x)) for x in [head, *walk_no_nested(head)] if obj_call(x)]
+                if not calls:
+                    continue
+                for c, o, meth in calls:
+                    if meth is None:
+                        return None
+                in_test = isinstance(st, (ast.If, ast.While))
+                c, o, meth = calls[0]
+                if isinstance(st, ast.While):
+                    if st.orelse:
+                        return None
+                    brk = ast.copy_location(ast.If(test=ast.copy_location(ast.UnaryOp(op=ast.Not(), operand=st.test), st),
+                                                   body=[ast.copy_location(ast.Break(), st)], orelse=[]), st)
+                    st.test = ast.copy_location(ast.Constant(value=True), st)
+                    st.body.insert(0, brk)
+                    changed = True
+                    break
+                if isinstance(st, ast.If):
+                    first = [t for t in calls if _first_evaluated(st.test, t[0])]
+                    if not first:
+                        if any(impure(o2, m2) for _, o2, m2 in calls):
+                            return None
+                        continue
+                    c, o, meth = first[0]
+                    counter[0] += 1
+                    tmp = f'{o["name"]}_{meth.name.strip("_")}_{counter[0]}'
+                    asg = ast.copy_location(ast.Assign(targets=[ast.Name(id=tmp, ctx=ast.Store())], value=c), st)
+                    asg.lineno = asg.end_lineno = st.lineno - 0.25
+                    _replace_node(st, c, ast.copy_location(ast.Name(id=tmp, ctx=ast.Load()), c))
+                    body.insert(i, asg)
+                    changed = True
+                    break
+                whole = isinstance(st, (ast.Assign, ast.AnnAssign, ast.Return, ast.Expr)) and st.value is c
+                if not whole:
+                    if any(impure(o2, m2) for _, o2, m2 in calls):
+                        return None
+                    continue   # calls that write nothing stay where they are
+                where = 'return' if isinstance(st, ast.Return) else 'expr' if isinstance(st, ast.Expr) else 'assign'
+                helper = _clone(meth.node)
+                for x in ast.walk(helper):
+                    if hasattr(x, 'lineno'):
+                        x._src = (meth.file, meth.qualname, x.lineno)
+                if not _eligible_helper(helper) or not _inline_call(fn, body, i, st, c, helper, 'self', where):
+                    return None
+                changed = True
+                break
+            if changed:
+                break
+        if not changed:
+            break
+    else:
+        return None
+    _thread_constant_tests(fn, _clone)
+    temps_ = {f'{n}_{mt.strip("_")}' for n, o in objs.items() for c_ in o['cls'].mro() for mt in c_.methods}
+    if any(isinstance(x, ast.Name) and isinstance(x.ctx, ast.Load) and x.id.rsplit('_', 1)[0] in temps_
+           and x.id.rsplit('_', 1)[-1].isdigit() for x in walk_no_nested(fn)):
+        # the result of an opened call is still tested as a variable: the link between its value and the branch
+        # that produced it is not spelled out as control flow, and the flag dataflow would lose it
+        return None
+    # calls left: methods that write no field
+    pure = {}
+    for x in walk_no_nested(fn):
+        r = obj_call(x)
+        if r:
+            o, meth = r
+            if meth is None or impure(o, meth):
+                return None
+            pure[id(x)] = (o, meth)
+    _FieldLocals({n: o['fields'] for n, o in objs.items()}).visit(fn)
+    set_parents(fn)
+    for x in walk_no_nested(fn):
+        if isinstance(x, ast.Name) and x.id in objs:
+            p = getattr(x, '_parent', None)
+            pp = getattr(p, '_parent', None)
+            if not (isinstance(p, ast.Attribute) and isinstance(pp, ast.Call) and pp.func is p and id(pp) in pure):
+                return None   # the object is handed on, compared, rebound ..
+    return dict(fn=fn, objs=list(objs.values()), pure=pure)
+
+
+def _src_line(n, default=0):
+    s = getattr(n, '_src', None)
+    return s if s else None
+
+
+def stale_state_reads(prog, fi, opened):
+    """For the builder-persistent objects opened in `fi`: the reads of a field that is written while flying and is
+    not assigned on every path from the entry of `fi` to the read.  [(obj, field, text, line, assigned before)]"""
+    fn = opened['fn']
+    g = CFG(fn)
+    names = {f'{o["name"]}__{x}': (o, x) for o in opened['objs'] for x in o['fields']}
+    binds = {n.id: _node_binds(n) for n in g.nodes}
+
+    def tbind(node, st):
+        b, d = binds[node.id]
+        return (st | b) - d if (b or d) else st
+
+    must, _ = g.forward(frozenset(), tbind, lambda a, b: a & b, edge_ok=lambda a, b, lab: lab != 'e')
+    out = []
+    for n in g.nodes:
+        if n.id not in must:
+            continue
+        have = must[n.id]
+        for e in _node_exprs(n):
+            for x in walk_no_nested(e, include_lambda=False):
+                hits = []
+                if isinstance(x, ast.Name) and x.id in names and (isinstance(x.ctx, ast.Load) or isinstance(
+                        getattr(x, '_parent', None), ast.AugAssign) and x._parent.target is x):
+                    hits.append((names[x.id], None))
+                elif isinstance(x, ast.Call) and id(x) in opened['pure']:
+                    o, meth = opened['pure'][id(x)]
+                    eff = _method_effects(o['cls'], meth.name)
+                    hits += [((o, f), meth) for f in sorted(eff[0])]
+                for (o, f), via in hits:
+                    if f'{o["name"]}__{f}' in have or o['kind'] != 'builder':
+                        continue
+                    src = getattr(x, '_src', None)
+                    where = f'{src[1]} line {src[2]}' if src else f'{fi.qualname} line {int(-(-n.line // 1))}'
+                    if via is not None:
+                        where += f', through {via.qualname}'
+                    done = sorted(nm.split('__', 1)[1] for nm in have if nm.startswith(o['name'] + '__'))
+                    out.append((o, f, n.text()[:60].replace(o['name'] + '__', o['name'] + '.'), where, done))
+    return out
+
+
+def rule_iteration_state(ctx, prog, fi, opened):
+    """R2 for the helper objects that hold the iteration's state: see the module docstring"""
+    stale = stale_state_reads(prog, fi, opened)
+    bad = {}
+    for o, f, text, where, done in stale:
+        bad.setdefault((o['name'], f), (o, f, text, where, done))
+    for o in opened['objs']:
+        if o['kind'] != 'builder':
+            continue
+        k = o['cls']
+        written = {}
+        for c in k.mro():
+            for meth in c.methods.values():
+                if meth.name in ('__init__', '__post_init__', '__new__'):
+                    continue
+                for t, st, how in stores_to(meth.node):
+                    if isinstance(t, ast.Attribute) and norm(t.value) == (meth.params[0] if meth.params else 'self'):
+                        written.setdefault(t.attr, (meth, st))
+        for x in walk_no_nested(opened['fn']):
+            if isinstance(x, ast.Name) and isinstance(x.ctx, ast.Store) and x.id.startswith(o['name'] + '__'):
+                written.setdefault(x.id.split('__', 1)[1], (fi, x))
+        # does anything else of the flight touch the object before the iteration starts?
+        elsewhere = [f2 for c in prog.subclasses_of('Builder') for f2 in c.methods.values()
+                     if f2.node is not fi.node and f2.name not in ('__init__', '__post_init__')
+                     and any(isinstance(y, ast.Attribute) and y.attr == o['attr'] for y in ast.walk(f2.node))]
+        for f in sorted(o['fields']):
+            hit = bad.get((o['name'], f))
+            if hit is None or f not in written:
+                if f in written:
+                    ctx.ob('C17-R2', fi, f'field `{f}` of builder.{o["attr"]} ({k.name}) is set for this flight before '
+                           'it is read', True, 'assigned on every path from the start of the iteration to each read')
+                continue
+            if elsewhere:
+                ctx.undecided('C17-R2', fi, f'builder.{o["attr"]}.{f}', f'the field is read at {hit[3]} without having been '
+                              f'assigned in {fi.name}, and {elsewhere[0].qualname} also uses the object')
+            wm, wst = written[f]
+            ctx.ob('C17-R2', fi, f'field `{f}` of builder.{o["attr"]} ({k.name}) is set for this flight before it is read',
+                   False,
+                   f'builder.{o["attr"]} is created once per builder ({o["ctor"].qualname}, line {o["store"].lineno}) and '
+                   f'outlives the flight; its field `{f}` is read at `{hit[2]}` ({hit[3]}) but is not assigned on every '
+                   f'path from the start of this flight\'s iteration to that read (assigned by then: '
+                   f'{", ".join(hit[4]) or "nothing"} - not `{f}`), while {wm.qualname} writes it during a flight (line '
+                   f'{getattr(wst, "lineno", 0)}): it is initialised once per builder instead of once per flight, so what '
+                   'an earlier flight left in it decides the outcome of this one',
+                   line=fi.node.lineno)
+    return {f'{n}__{f}': v for (n, f), v in bad.items()}
+
+
 def rule_convergence(ctx, m):
     """R3 on the CFG of `_iterate_mass`, by must-dataflow.  State: ok = |residual| < tolerance has been established
     for the current (trajectory, residual) pair; same = both come from one `_fly_iteration()` call; per boolean flag
@@ -1229,7 +1699,19 @@ def rule_convergence(ctx, m):
     it = m.func('Builder._iterate_mass')
     fi = m.func('Builder._fly_iteration')
     fn = it.node
+    # loop state kept in a helper object (flag, counter, latest residual as fields) is read as the locals it stands for
+    opened = open_state_objects(prog, it)
+    stale_fields = {}
+    if opened is not None:
+        fn = opened['fn']
+        ctx.stats['_iterate_mass.state_objects'] = [f'{o["name"]}: {o["cls"].name} ({o["kind"]})' for o in opened['objs']]
+        stale_fields = rule_iteration_state(ctx, prog, it, opened)
     g = CFG(fn)
+
+    def shown(txt):
+        for o in (opened['objs'] if opened else []):
+            txt = txt.replace(o['name'] + '__', o['name'] + '.')
+        return txt
 
     def is_iteration(e):
         if not isinstance(e, ast.Call):
@@ -1366,7 +1848,7 @@ def rule_convergence(ctx, m):
                 else:
                     kt, kf = gate.facts(v, True, fresh), gate.facts(v, False, fresh)
                     for k in kt | kf:
-                        seen_kinds.setdefault(k, []).append(s.lineno)
+                        seen_kinds.setdefault(k, []).append(int(-(-s.lineno // 1)))
                     p = set()
                     if same and 'gate' in kt:
                         p.add('imp')
@@ -1386,7 +1868,7 @@ def rule_convergence(ctx, m):
         pol = lab == 't'
         kinds = gate.facts(node.stmt.test, pol, fresh)
         for k in kinds:
-            seen_kinds.setdefault(k, []).append(node.line)
+            seen_kinds.setdefault(k, []).append(int(-(-node.line // 1)))
         if 'gate' in kinds and same:
             ok = True
         upd = {}
@@ -1434,6 +1916,13 @@ def rule_convergence(ctx, m):
         elif not same:
             why = (f'`{tdesc}` and `{rdesc}` can come from different iterations here: the residual that was tested is '
                    'not the residual of the trajectory that is returned')
+        elif flags & set(stale_fields):
+            fl_ = sorted(flags & set(stale_fields))[0]
+            o_, f_ = stale_fields[fl_][0], stale_fields[fl_][1]
+            why = (f'the flag `{o_["name"]}.{f_}` that lets control reach this return is a field of builder.{o_["attr"]}, '
+                   f'which outlives the flight, and it is not reset for this flight (read at {stale_fields[fl_][3]}; see '
+                   'C17-R2): left True by an earlier flight that converged, it lets a flight that ran out of passes '
+                   'return its unconverged trajectory instead of reporting non-convergence')
         elif 'upper' in seen_kinds and 'lower' not in seen_kinds and not unclassified_bound:
             why = (f'the test at line {seen_kinds["upper"][0]} compares the signed residual: any negative residual '
                    '(fuel deficit) counts as converged')
@@ -1459,7 +1948,8 @@ def rule_convergence(ctx, m):
             why = (f'convergence is concluded from the *failure* of a >= test (line {ln}): a NaN residual fails it too '
                    'and the trajectory is returned as converged')
         elif gate.loose:
-            why = (f'the residual is tested against `{norm(gate.loose[0])}` (line {gate.loose[0].lineno}), which is '
+            why = (f'the residual is tested against `{shown(norm(gate.loose[0]))}` (line '
+                   f'{int(-(-gate.loose[0].lineno // 1))}), which is '
                    f'wider than the requested options.{TOL_OPTION}')
         elif 'other' in seen_kinds or unclassified_bound:
             ln = (seen_kinds.get('other-bound') or seen_kinds.get('other'))[0]
@@ -2021,8 +2511,195 @@ def rule_ctx_init(ctx, m):
            'each checked against the position of super().__init__()', nontrivial=False)
 
 
+# ----------------------------------------------------------------------------------------------------
+# R7: a rejecting loop over paired sequences makes every check it is written to make
+# ----------------------------------------------------------------------------------------------------
+
+def _static_sequence(prog, fi, e, depth=0):
+    """The display that fixes the elements of the sequence expression `e` in function `fi` - a literal tuple / list,
+    a local bound once to one, `tuple(..)` / `list(..)` of one, a class constant read as `self.N` / `cls.N` /
+    `Class.N` that no method stores to, a module constant - or None when the program text does not fix it.
+    Returns (display node, description of where it is written)."""
+    if depth > 6 or e is None:
+        return None
+    if isinstance(e, (ast.Tuple, ast.List)):
+        return None if any(isinstance(x, ast.Starred) for x in e.elts) else (e, 'the display')
+    if isinstance(e, ast.Call) and call_name(e) in ('tuple', 'list', 'reversed', 'sorted') and len(e.args) == 1 \
+            and not any(k.arg is None for k in e.keywords):
+        return _static_sequence(prog, fi, e.args[0], depth + 1)
+    if isinstance(e, ast.Name):
+        if e.id in _params(fi.node):
+            return None
+        ds = local_defs(fi.node, e.id)
+        if ds:
+            v = single_def_value(fi.node, e.id)
+            return _static_sequence(prog, fi, v, depth + 1) if v is not None else None
+        if any(isinstance(x, ast.Name) and x.id == e.id and isinstance(x.ctx, (ast.Store, ast.Del))
+               for x in ast.walk(fi.node)) or any(isinstance(x, (ast.Global, ast.Nonlocal)) for x in ast.walk(fi.node)):
+            return None
+        r = prog.resolve_name(fi.module, e.id)
+        if isinstance(r, tuple) and r and r[0] == 'const':
+            v = r[1].constants.get(r[2])
+            if isinstance(v, (ast.Tuple, ast.List)) and not any(isinstance(x, ast.Starred) for x in v.elts):
+                return v, f'the module constant {r[2]}'
+        return None
+    if isinstance(e, ast.Attribute) and isinstance(e.value, ast.Name) and fi.cls is not None:
+        recv = e.value.id
+        first = fi.node.args.args[0].arg if fi.node.args.args else None
+        cls = None
+        if recv == first and 'staticmethod' not in fi.decorators():
+            cls = fi.cls
+        else:
+            try:
+                cls = prog.resolve_class_expr(fi.module, e.value)
+            except Exception:
+                cls = None
+        if cls is None:
+            return None
+        family = {id(k): k for c in [cls, *prog.subclasses_of(cls.name)] for k in c.mro()}.values()
+        for k in family:
+            for meth in k.methods.values():
+                for t, st, how in stores_to(meth.node):
+                    if isinstance(t, ast.Attribute) and t.attr == e.attr:
+                        return None   # an instance may carry its own value
+        for k in cls.mro():
+            v = k.class_assignments().get(e.attr)
+            if v is not None:
+                if any(s.class_assignments().get(e.attr) is not None for s in prog.subclasses_of(cls.name)
+                       if s is not k and k in s.mro() and s not in cls.mro()):
+                    return None   # a subclass overrides the constant
+                if isinstance(v, (ast.Tuple, ast.List)) and not any(isinstance(x, ast.Starred) for x in v.elts):
+                    return v, f'the class constant {k.name}.{e.attr}'
+                return None
+    return None
+
+
+def _joined_literals(prog, file, el):
+    """a string element written as several adjacent literals (which Python joins into ONE string): (first line, last
+    line) or None"""
+    if not (isinstance(el, ast.Constant) and isinstance(el.value, str)):
+        return None
+    lo, hi = getattr(el, 'lineno', 0), getattr(el, 'end_lineno', 0) or 0
+    if not (isinstance(lo, int) and isinstance(hi, int) and hi > lo):
+        return None
+    m = prog.modules.get(file)
+    src = getattr(m, 'source', None)
+    if not src:
+        return None
+    seg = ast.get_source_segment(src, el)
+    if seg is None:
+        return None
+    import io
+    import tokenize
+    try:
+        n = sum(1 for t in tokenize.generate_tokens(io.StringIO('(' + seg + ')').readline) if t.type == tokenize.STRING)
+    except Exception:
+        return None
+    return (lo, hi) if n > 1 else None
+
+
+def _rejecting_zips(fn):
+    """[(zip call, loop)] `for .. in zip(..)` loops of fn whose body can reject (contains a raise)"""
+    out = []
+    for x in walk_no_nested(fn):
+        if isinstance(x, ast.For) and isinstance(x.iter, ast.Call) and call_name(x.iter) == 'zip' \
+                and any(isinstance(y, ast.Raise) for s in x.body for y in walk_no_nested(s)):
+            out.append((x.iter, x))
+    return out
+
+
+def _zip_verdict(prog, fi, z):
+    """(ok, text) for one zip call feeding a rejecting loop, or None when the lengths are not fixed by the text"""
+    if any(isinstance(a, ast.Starred) for a in z.args) or len(z.args) < 2:
+        return None
+    strict = next((k.value for k in z.keywords if k.arg == 'strict'), None)
+    seqs = [_static_sequence(prog, fi, a) for a in z.args]
+    if any(s is None for s in seqs):
+        return None
+    lens = [len(d.elts) for d, _ in seqs]
+    if len(set(lens)) == 1:
+        return True, f'{len(lens)} sequences of {lens[0]} elements each: every pair is checked'
+    n = min(lens)
+    short = [(a, d, w) for a, (d, w), k in zip(z.args, seqs, lens) if k == n]
+    a, d, w = short[0]
+    parts = [f'`{norm(x)[:40]}` has {k}' for x, k in zip(z.args, lens)]
+    why = f'zip() stops at its shortest operand: {", ".join(parts)} element(s), so only {n} of the {max(lens)} checks ' \
+          f'this loop is written to make are ever made'
+    file = fi.file
+    for el in d.elts:
+        j = _joined_literals(prog, file, el)
+        if j:
+            why += (f'; {w} holds ONE string written as adjacent literals on lines {j[0]}-{j[1]} (a comma between two '
+                    'messages is missing, so Python joins them)')
+            break
+    dropped = []
+    for arg, (dd, _), k in zip(z.args, seqs, lens):
+        if k > n and all(not isinstance(x, ast.Constant) for x in dd.elts[n:]):
+            dropped.append(', '.join(norm(x) for x in dd.elts[n:]))
+    if dropped:
+        why += f'; never examined: {" against ".join(dropped)}'
+    why += (': a mission that only the dropped check(s) would reject is accepted here and fails later, if at all, '
+            'for an unrelated reason')
+    if isinstance(strict, ast.Constant) and strict.value is True:
+        why += ' (with strict=True the loop itself raises an unrelated ValueError instead)'
+    return False, why
+
+
+_ZIP_CONTROL = '''
+class K:
+    MSG = ("a" "b", )
+
+    def __init__(self, lo, hi):
+        for x, y, m in zip((lo, hi), (hi, lo), self.MSG):
+            if x > y:
+                raise ValueError(m)
+'''
+
+
+def rule_paired_checks(ctx, m):
+    """R7: see the module docstring"""
+    prog = ctx.prog
+    roots = []
+    for c in prog.subclasses_of('Context'):
+        roots += [meth for meth in c.methods.values()]
+    for c in prog.subclasses_of('Builder'):
+        roots += [meth for meth in c.methods.values()]
+    try:
+        fns = closure(prog, roots)
+    except Exception:
+        fns = roots
+    seen, n = set(), 0
+    for f in list(roots) + list(fns):
+        if id(f.node) in seen:
+            continue
+        seen.add(id(f.node))
+        for z, loop in _rejecting_zips(f.node):
+            v = _zip_verdict(prog, f, z)
+            if v is None:
+                continue
+            n += 1
+            ctx.ob('C17-R7', f, f'rejecting loop over `{norm(z)[:90]}` makes every check', v[0], v[1], line=loop.lineno)
+    ctx.ob('C17-R7', (m.relpath, 'Context'), f'{n} rejecting loops over paired sequences of fixed length', True,
+           'each examined: operand lengths compared', nontrivial=False)
+    # positive control
+    from types import SimpleNamespace
+    tree = set_parents(ast.parse(_ZIP_CONTROL))
+    kn = tree.body[0]
+    ini = kn.body[1]
+    kc = SimpleNamespace(name='K', node=kn, methods={}, mro=lambda: [kc],
+                         class_assignments=lambda: {'MSG': kn.body[0].value})
+    fake_prog = SimpleNamespace(subclasses_of=lambda nm: [], modules={}, resolve_name=lambda mod, nm: None,
+                                resolve_class_expr=lambda mod, e: None)
+    fk = SimpleNamespace(node=ini, cls=kc, module=None, file='<control>', decorators=lambda: [])
+    zs = _rejecting_zips(ini)
+    got = _zip_verdict(fake_prog, fk, zs[0][0]) if zs else None
+    ctx.control('C17-R7', got is not None and got[0] is False,
+                'embedded rejecting loop over zip((2 elements), (2 elements), <class constant of 1 element>) is recognised')
+
+
 def run(ctx):
     rule_ctx_init(ctx, ctx.prog.module(BASE))
+    rule_paired_checks(ctx, ctx.prog.module(BASE))
     m = ctx.prog.module(BASE)
     fw = rule_pairing(ctx, m)
     rule_persistent(ctx, m)
